@@ -152,5 +152,15 @@ impl Compiler {
 pub fn rt_guard() -> !
 { panic!() }
 
-// core::Alternative projected on the expression of the alternative
-pub struct Alternative { pub expr: Expr }
+// core::Alternative / core::Pattern: same variants; identifiers, literals and record fields opaque
+#[verifier::external_body] pub struct PatX { _p: () }
+pub enum Pattern { Constructor(PatX, Vec<PatX>), Record { typ: PatX, fields: PatX }, Ident(PatX), Literal(PatX) }
+pub struct Alternative { pub pattern: Pattern, pub expr: Expr }
+impl Compiler {
+    // stands for the statement `match alt.pattern { .. }` of the Match arm of compile_ (see spec.toml): NOT under contract
+    #[verifier::external_body]
+    pub fn bind_alternative_pattern(&mut self, alt: &Alternative, function: &mut FunctionEnv, start_index: usize) -> (r: Result<(), CErr>)
+        requires old(function).wf()
+        ensures final(self).log() == old(self).log(), r is Ok ==> final(function).wf()
+    { unimplemented!() }
+}
